@@ -14,6 +14,10 @@ fail-closed: any shape that is not recognised yields False.
   snapshot_iframe_reads_in_loop    every use of iframe_raw / .f_frame sits inside the `try` of the retry loop
   snapshot_handler_retries_only_if_moved   `except AssertionError:` starts with `if frame.f_lasti == lasti_before: raise`
                                    and ends with `continue`; the loop's else raises RuntimeError
+  snapshot_blocks_from_accepted    the walk over the exception table after the retry loop starts from a variable whose
+                                   only assignment is `<v> = <lasti_before>` in the accepted path of the retry loop
+                                   (after the try, before `break`) -- or from lasti_before itself --, and no f_lasti
+                                   read occurs after the retry loop
   snapshot_stack_reset_in_attempt  `details.stack = []` is executed inside the attempt before the slot loop
   snapshot_check_read_no_switch_bytecode   (3.12 host) in the compiled inspect_frame no CALL*/JUMP_BACKWARD*/RESUME/
                                    FOR_ITER/SEND sits between the f_lasti compare and the BINARY_SUBSCR of stack_ptr[i],
@@ -122,7 +126,7 @@ def compute():
     facts = {k: False for k in (
         "snapshot_slot_check_adjacent", "snapshot_header_check_adjacent", "snapshot_capture_to_check_no_call",
         "snapshot_iframe_reads_in_loop",
-        "snapshot_handler_retries_only_if_moved", "snapshot_stack_reset_in_attempt",
+        "snapshot_handler_retries_only_if_moved", "snapshot_stack_reset_in_attempt", "snapshot_blocks_from_accepted",
         "snapshot_check_read_no_switch_bytecode", "thread_alive_rechecked")}
     try:
         tree = _parse(L311)
@@ -229,6 +233,37 @@ def _snapshot_facts(fn, facts):
     after = _strip(loop.body[loop.body.index(tr) + 1:])
     ok = ok and bool(after) and isinstance(after[-1], ast.Break)
     facts["snapshot_handler_retries_only_if_moved"] = ok
+
+    # --- the block walk starts from the accepted position
+    ok = False
+    if loop in fn.body:
+        rest = fn.body[fn.body.index(loop) + 1:]
+        fresh = [x for st in rest for x in ast.walk(st) if isinstance(x, ast.Attribute) and x.attr == "f_lasti"]
+        walks = [st for st in rest if isinstance(st, ast.While)]
+        curs = set()
+        for wl in walks:
+            for x in ast.walk(wl):
+                if (isinstance(x, ast.Call) and isinstance(x.func, ast.Attribute) and x.func.attr.startswith("bisect")):
+                    for y in ast.walk(x):
+                        if isinstance(y, ast.BinOp) and isinstance(y.op, ast.Add) and isinstance(y.left, ast.Name):
+                            curs.add(y.left.id)
+        if len(walks) == 1 and len(curs) == 1 and not fresh:
+            cur = next(iter(curs))
+            before = rest[:rest.index(walks[0])]
+            inits = [st for st in before if isinstance(st, ast.Assign) and len(st.targets) == 1
+                     and isinstance(st.targets[0], ast.Name) and st.targets[0].id == cur]
+            if len(inits) == 1 and isinstance(inits[0].value, ast.Name):
+                v = inits[0].value.id
+                if v == NAMES["lasti"]:
+                    ok = True
+                else:
+                    stores = [x for x in ast.walk(fn) if isinstance(x, ast.Name) and isinstance(x.ctx, ast.Store) and x.id == v]
+                    accepted = _strip(loop.body[loop.body.index(tr) + 1:])
+                    asg = [st for st in accepted if isinstance(st, ast.Assign) and len(st.targets) == 1
+                           and isinstance(st.targets[0], ast.Name) and st.targets[0].id == v
+                           and isinstance(st.value, ast.Name) and st.value.id == NAMES["lasti"]]
+                    ok = len(stores) == 1 and len(asg) == 1
+    facts["snapshot_blocks_from_accepted"] = ok
 
     # --- details.stack = [] inside the attempt, before the slot loop
     ok = False
